@@ -60,6 +60,77 @@ theorem C24_cache_locked :
     Gen.LockC24.accesses.all (fun a => if a.2.2.1 then a.2.2.2 == "W" else (a.2.2.2 == "R" || a.2.2.2 == "W")) = true ∧
     Gen.LockC24.accesses ≠ [] := by decide
 
+/-! ### which strings authenticate -/
+
+/-- With the length / NUL guard, the only string bcrypt's key construction identifies with a
+    NUL-free token of at most 72 bytes is the token itself. -/
+theorem C24_token_exact (t p : List Char) (ht : t.length ≤ 72) (htn : NUL ∉ t)
+    (h : validateToken t p = true) : p = t := by
+  unfold validateToken bcryptAccepts at h
+  simp only [Bool.and_eq_true, decide_eq_true_eq, Bool.not_eq_true', beq_iff_eq] at h
+  obtain ⟨⟨hp, hpn⟩, hk⟩ := h
+  have hpn' : NUL ∉ p := by
+    intro hm; have := List.contains_iff_mem.mpr hm; rw [hpn] at this; cases this
+  have hkey : ∀ i, i < 72 → (p ++ [NUL]).getD (i % (p.length + 1)) NUL = (t ++ [NUL]).getD (i % (t.length + 1)) NUL := by
+    intro i hi
+    have h1 := key_at (p := p) hi
+    have h2 := key_at (p := t) hi
+    rw [hk, h2] at h1
+    exact (Option.some.inj h1).symm
+  -- where the key of `t` has its NUL
+  have tz : ∀ j, j < t.length + 1 → (t ++ [NUL]).getD j NUL = NUL → j = t.length := by
+    intro j hj hz
+    by_cases hlt : j < t.length
+    · rw [getD_concat_lt hlt] at hz
+      exact absurd (hz ▸ List.getElem_mem hlt) htn
+    · omega
+  have pz : ∀ j, j < p.length → (p ++ [NUL]).getD j NUL ≠ NUL := by
+    intro j hj hz
+    rw [getD_concat_lt hj] at hz
+    exact hpn' (hz ▸ List.getElem_mem hj)
+  have hlen : p.length = t.length := by
+    by_cases hp72 : p.length = 72
+    · -- no NUL among the 72 key bytes of p, so none among those of t
+      by_cases htl : t.length < 72
+      · have := hkey t.length htl
+        rw [Nat.mod_eq_of_lt (by omega), Nat.mod_eq_of_lt (by omega), getD_concat_eq] at this
+        exact absurd this (pz t.length (by omega))
+      · omega
+    · have hp71 : p.length < 72 := by omega
+      have hz := hkey p.length hp71
+      rw [Nat.mod_eq_of_lt (by omega), getD_concat_eq] at hz
+      have hmod := tz (p.length % (t.length + 1)) (Nat.mod_lt _ (by omega)) hz.symm
+      by_cases hge : p.length < t.length + 1
+      · rw [Nat.mod_eq_of_lt hge] at hmod; exact hmod
+      · -- then position t.length < p.length of p's key would be NUL
+        have hi : t.length < 72 := by omega
+        have := hkey t.length hi
+        rw [Nat.mod_eq_of_lt (by omega), Nat.mod_eq_of_lt (by omega), getD_concat_eq] at this
+        exact absurd this (pz t.length (by omega))
+  apply List.ext_getElem hlen
+  intro i h1 h2
+  have hi : i < 72 := by omega
+  have := hkey i hi
+  rw [Nat.mod_eq_of_lt (by omega), Nat.mod_eq_of_lt (by omega), getD_concat_lt h1, getD_concat_lt h2] at this
+  exact this
+
+
+/-- Hence: token configured (NUL-free, at most 72 bytes — all that can be hashed), path not exempt,
+    and the presented string (header or query) is not EXACTLY the token ⇒ 401, mux never reached. -/
+theorem C24_401_exact (t : List Char) (f : Flags) (r : Req) (ht : t.length ≤ 72) (htn : NUL ∉ t)
+    (hex : decoded r.path ∉ exempt) (hne : extractToken r ≠ t) :
+    serve (validateToken t) true f r = ⟨.s401, none, false⟩ := by
+  apply C24_401 _ f r hex
+  by_cases h : validateToken t (extractToken r) = true
+  · exact absurd (C24_token_exact t _ ht htn h) hne
+  · right; simpa using h
+
+/-- Without the length / NUL guard bcrypt alone identifies other strings with the token (this is
+    what the code did before fixes/C24-token-length.patch): a 72-byte token and any extension. -/
+example : bcryptAccepts (List.replicate 72 'a') (List.replicate 72 'a' ++ ['x']) = true := by decide
+example : bcryptAccepts ['a', 'b'] ['a', 'b', NUL, 'a', 'b'] = true := by decide
+example : validateToken ['a', 'b'] ['a', 'b'] = true ∧ validateToken ['a', 'b'] ['a', 'b', NUL, 'a', 'b'] = false := by decide
+
 /-! ### exempt paths reach only exempt registrations -/
 
 /-- Shape every exempt path has: "/" or "/seg" with one ordinary segment. -/
